@@ -260,27 +260,50 @@ impl<'input> fmt::Debug for Document<'input> {
             Ok(())
         }
 
+        // Prints a single node. For an element with children, prints only its header.
+        fn print_node(child: Node, depth: usize, f: &mut fmt::Formatter) -> Result<(), fmt::Error> {
+            if child.is_element() {
+                writeln_indented!(depth, f, "Element {{");
+                writeln_indented!(depth, f, "    tag_name: {:?}", child.tag_name());
+                print_into_iter("attributes", child.attributes(), depth + 1, f)?;
+                print_into_iter("namespaces", child.namespaces(), depth + 1, f)?;
+
+                if child.has_children() {
+                    writeln_indented!(depth, f, "    children: [");
+                } else {
+                    writeln_indented!(depth, f, "}}");
+                }
+            } else {
+                writeln_indented!(depth, f, "{:?}", child);
+            }
+
+            Ok(())
+        }
+
+        // Uses an explicit stack instead of recursion,
+        // so that deeply nested documents cannot overflow the call stack.
         fn print_children(
             parent: Node,
             depth: usize,
             f: &mut fmt::Formatter,
         ) -> Result<(), fmt::Error> {
-            for child in parent.children() {
-                if child.is_element() {
-                    writeln_indented!(depth, f, "Element {{");
-                    writeln_indented!(depth, f, "    tag_name: {:?}", child.tag_name());
-                    print_into_iter("attributes", child.attributes(), depth + 1, f)?;
-                    print_into_iter("namespaces", child.namespaces(), depth + 1, f)?;
-
-                    if child.has_children() {
-                        writeln_indented!(depth, f, "    children: [");
-                        print_children(child, depth + 2, f)?;
-                        writeln_indented!(depth, f, "    ]");
+            let mut stack = alloc::vec![(parent.children(), depth)];
+            while let Some((children, depth)) = stack.last_mut() {
+                let depth = *depth;
+                match children.next() {
+                    Some(child) => {
+                        print_node(child, depth, f)?;
+                        if child.is_element() && child.has_children() {
+                            stack.push((child.children(), depth + 2));
+                        }
                     }
-
-                    writeln_indented!(depth, f, "}}");
-                } else {
-                    writeln_indented!(depth, f, "{:?}", child);
+                    None => {
+                        stack.pop();
+                        if !stack.is_empty() {
+                            writeln_indented!(depth - 2, f, "    ]");
+                            writeln_indented!(depth - 2, f, "}}");
+                        }
+                    }
                 }
             }
 
